@@ -448,12 +448,25 @@ def execute(cfg, extra_next=3, want_trace=False, action_hook=None):
             mon = Monitor(cfg, sched)
             mon.check_observers(before_first=True)
             mon.check_usage("before the first next()")
+            src = sched
+            if cfg.get("iter"):
+                # driver style `it = iter(schedule)` / `for action in schedule` / enumerate(schedule):
+                # obtaining the iterator requests no action yet
+                try:
+                    src = quiet(iter, sched)
+                except CaseTimeout:
+                    raise
+                except Exception as e:
+                    mon.v("C17", "valid-config-raises:iter", "iter(schedule) raised %s: %s" % (type(e).__name__, e))
+                    src = sched
+                mon.check_observers(before_first=True)
+                mon.check_usage("after iter(schedule), before the first next()")
             requested = cfg.get("passes", 1)
             cap = action_cap(cfg["n"]) * max(1, requested)
             stops = 0
             while True:
                 try:
-                    a = quiet(next, sched)
+                    a = quiet(next, src)
                 except StopIteration:
                     stops += 1
                     if not mon.final_emitted:
